@@ -4,7 +4,8 @@
    the bounding box of its support (_crop), placed at the origin of a
    zero-padded buffer of shape ceil((n+k)/2)*2+2, multiplied in Fourier space
    with the zero-padded data (= circular convolution on the buffer), divided by
-   the kernel sum, and the window [k//2, n + k//2) is returned.  All of that
+   the kernel sum, and the window [c_k, n + c_k) is returned, c_k = _kcenter the
+   index of the kernel's maximum (its centre voxel) inside the cropped kernel.  All of that
    index logic acts axis by axis; the model is the per-axis logic plus the
    3-D support used by the correspondence for oblique affines.
 
@@ -25,10 +26,6 @@ Definition centre (n : Z) : Z := (n - 1) / 2.
    X = step * (i - centre);  _X /= sigma;  D2 = _X**2;  D2 / 2 *)
 Definition half_normsq (step sigma : Q) (d : Z) : Q :=
   (((step * inject_Z d) / sigma) * ((step * inject_Z d) / sigma) / 2)%Q.
-
-(* `if self.fwhm != 1.0: f = fwhm2sigma(self.fwhm); _X[i] /= f[i]` - for fwhm
-   exactly 1.0 the coordinates are NOT divided: the effective sigma is 1 *)
-Definition eff_sigma (fwhm sigma : Q) : Q := if Qeq_bool fwhm 1 then 1%Q else sigma.
 
 (* general affine: X = A d (A the 3x3 linear part, rows), per-axis sigma list *)
 Definition dotq (r : list Q) (d : list Z) : Q :=
@@ -75,11 +72,12 @@ Definition klen (mM : Z * Z) : Z := snd mM - fst mM + 1.            (* kernel.sh
 Definition kcentre (n : Z) (mM : Z * Z) : Z := centre n - fst mM.  (* centre voxel inside the cropped kernel *)
 (* self.shape = (np.ceil((bshape + kernel.shape) / 2) * 2 + 2) *)
 Definition buflen (n k : Z) : Z := ((n + k + 1) / 2) * 2 + 2.
-(* slicer: slice(k // 2, bshape + k // 2) *)
-Definition win_start (k : Z) : Z := k / 2.
-Definition win_stop (n k : Z) : Z := n + k / 2.
-(* spatial offset of the smoothed image (voxels): response to an impulse at p peaks at p + offset *)
-Definition offset (n : Z) (mM : Z * Z) : Z := kcentre n mM - win_start (klen mM).
+(* slicer: slice(self._kcenter[i], self.bshape[i] + self._kcenter[i]); w = _kcenter[i] *)
+Definition win_start (w : Z) : Z := w.
+Definition win_stop (n w : Z) : Z := n + w.
+(* centre index minus half the kernel length: 0 for a symmetric crop (the window used to start
+   at k // 2; kept to state where the centre of a cropped kernel sits) *)
+Definition half_gap (n : Z) (mM : Z * Z) : Z := kcentre n mM - klen mM / 2.
 
 (* support projection of a diagonal affine on one axis *)
 Definition proj_diag (n : Z) (step sigma : Q) : Z -> bool :=
@@ -102,9 +100,11 @@ Definition support3 (A : list (list Q)) (sig : list Q) (shape : list Z) : list (
 Definition proj3 (supp : list (list Z)) (a : nat) : Z -> bool :=
   fun i => existsb (fun v => Z.eqb (nth a v 0) i) supp.
 
-(* [k; c_k; L; window start; window stop; offset] for axis a *)
+(* [k; c_k; L; window start; window stop; peak offset] for axis a; the window starts at the
+   centre index c_k (Properties: _kcenter = c_k), the peak offset is c_k - window start *)
 Definition geom_of (n : Z) (mM : Z * Z) : list Z :=
-  let k := klen mM in [k; kcentre n mM; buflen n k; win_start k; win_stop n k; offset n mM].
+  let k := klen mM in let ck := kcentre n mM in
+  [k; ck; buflen n k; win_start ck; win_stop n ck; ck - win_start ck].
 
 Definition geom_diag (n : Z) (step sigma : Q) : list Z := geom_of n (bounds_diag n step sigma).
 
@@ -136,10 +136,23 @@ Definition lin (n k : Z) (x kap : Z -> Q) (t : Z) : Q :=
 (* norms['l1sum'] = kernel.sum() *)
 Definition l1sum (k : Z) (kap : Z -> Q) : Q := zsum kap (Z.to_nat k).
 
+(* self._kcenter = np.unravel_index(np.argmax(kernel), kernel.shape): along one axis the
+   FIRST index at which the cropped kernel attains its maximum *)
+Fixpoint argmax_upto (f : Z -> Q) (m : nat) : Z :=
+  match m with
+  | O => 0
+  | S j => let a := argmax_upto f j in
+           if Qle_bool (f (Z.of_nat (S j))) (f a) then a else Z.of_nat (S j)
+  end.
+Definition kcenter (k : Z) (kap : Z -> Q) : Z := argmax_upto kap (Z.to_nat (k - 1)).
+
 (* smooth(): buffer <- data at origin; * fkernel; irfftn / l1sum; scale; location;
-   window [k//2, n + k//2).  p is the output voxel, 0 <= p < n. *)
+   window [w, n + w).  p is the output voxel, 0 <= p < n. *)
+Definition smooth1_w (n k w : Z) (x kap : Z -> Q) (scale loc : Q) (p : Z) : Q :=
+  (scale * (circ (buflen n k) (pad n x) (pad k kap) (p + win_start w) / l1sum k kap) + loc)%Q.
+(* ... with w = _kcenter *)
 Definition smooth1 (n k : Z) (x kap : Z -> Q) (scale loc : Q) (p : Z) : Q :=
-  (scale * (circ (buflen n k) (pad n x) (pad k kap) (p + win_start k) / l1sum k kap) + loc)%Q.
+  smooth1_w n k (kcenter k kap) x kap scale loc p.
 
 (* the cropped kernel along one axis for a profile g of the voxel offset from the centre:
    kernel[j] = g (j + m - centre) = g (j - c_k) *)
